@@ -93,7 +93,7 @@ TriplesChoices(c) == IF Len(c) < 3 THEN Reps6 ELSE IF Len(c) = 3 THEN 1..5 ELSE 
 (* family unary: nests of signs, indexing, calls, parentheses in operand   *)
 (* contexts                                                                *)
 
-Wrappers == {"neg", "pos", "idx", "call", "par", "not", "strcat", "none"}
+Wrappers == {"neg", "pos", "idx", "call", "par", "not", "strcat", "strcat1", "lower", "none"}
 ApplyW(w, e) ==
   CASE w = "neg" -> Un("Minus", e)
     [] w = "pos" -> Un("Plus", e)
@@ -102,6 +102,8 @@ ApplyW(w, e) ==
     [] w = "par" -> Paren(e)
     [] w = "not" -> Call("not", <<e>>)
     [] w = "strcat" -> Call("strcat", <<e, Str("z")>>)
+    [] w = "strcat1" -> Call("strcat", <<e>>)            \* one argument: the operand itself
+    [] w = "lower" -> Call("tolower", <<e>>)
     [] w = "none" -> e
 UContexts == {"alone", "lmul", "rsub", "base", "insubj", "inlist", "arg", "index", "req"}
 InCtx(cx, e) ==
@@ -467,11 +469,12 @@ QueryGood == {"one", "oneletafter", "oneempties"}
 JoinKinds == {"foo", "Inner", "left", "kind", "inner", "leftouter", "innerunique", "none"}
 JoinKindGood == {"inner", "leftouter", "innerunique", "none"}
 
-RowCounts == {"10", "1.5", "str", "1e3", "16", "neg", "col", "0.0", "0"}
+RowCounts == {"10", "1.5", "str", "1e3", "16", "neg", "col", "0.0", "0", "18446744073709551615", "18446744073709551616",
+              "99999999999999999999999"}
 RowCountExpr(v) ==
   CASE v = "str" -> Str("s") [] v = "neg" -> Un("Minus", Num("1")) [] v = "col" -> Col("n")
     [] OTHER -> Num(v)
-RowCountGood == {"10", "16", "neg", "col", "0"}
+RowCountGood == {"10", "16", "neg", "col", "0", "18446744073709551615", "18446744073709551616", "99999999999999999999999"}
 
 PlantChoices(c) ==
   IF c = <<>> THEN {"arity", "leftright", "let", "queries", "joinkind", "rowcount"}
